@@ -1,11 +1,6 @@
-#!/bin/sh
-# matrix.sh: every seeded mutation (that applies) x every check, in scratch worktrees; results in /tmp/matrix/<name>.json
+#!/bin/bash
+# matrix.sh: every seeded mutation x every check, in scratch worktrees; results in /tmp/matrix/<name>.json
 mkdir -p /tmp/matrix
 ALL="C01 C02 C03 C04 C05 C06 C07 C08 C09 C10 C11 C12 C13 C14 C15 C16 C17 C18 C19 C20"
-for d in /verif/seeded/*/; do
-  name=$(basename $d)
-  [ -f $d/patch.diff ] || continue
-  ( python3 /verif/tools/evalmut_nodemo.py $d $name $ALL > /tmp/matrix/$name.json 2>&1 ) &
-  while [ $(jobs -r | wc -l) -ge 5 ]; do sleep 1; done
-done
-wait
+ls -d /verif/seeded/*/ | while read d; do [ -f $d/patch.diff ] && echo $d; done | \
+  xargs -P 5 -I{} sh -c 'n=$(basename {}); python3 /verif/tools/evalmut_nodemo.py {} $n '"$ALL"' > /tmp/matrix/$n.json 2>&1'
